@@ -27,6 +27,18 @@ OverlapIffShared ==
   /\ OverlapsCode(pair[1], pair[2]) = Shared(pair[1], pair[2], Probes)
   /\ OverlapsCode(pair[1], pair[2]) = OverlapsCode(pair[2], pair[1])
 
+\* The unbounded theorem (proofs/VersionsProof.tla, checked by tlapm: over all
+\* integers the code's overlap test holds iff the ranges share a version) is
+\* stated about VersionsUnbounded's copies of these operators; on the grid the
+\* copies and the originals are the same functions.
+U == INSTANCE VersionsUnbounded
+Padded(r) == [k |-> r.k, a |-> IF "a" \in DOMAIN r THEN r.a ELSE 0, b |-> IF "b" \in DOMAIN r THEN r.b ELSE 0]
+SameAsUnbounded ==
+  /\ U!IsRange(Padded(pair[1])) /\ U!IsRange(Padded(pair[2]))
+  /\ \A v \in Probes : /\ U!M(Padded(pair[1]), v) = MatchesCode(pair[1], v)
+                       /\ U!InR(Padded(pair[1]), v) = InRange(pair[1], v)
+  /\ U!Ov(Padded(pair[1]), Padded(pair[2])) = OverlapsCode(pair[1], pair[2])
+
 \* Grid adequacy (why this finite check decides the dense semver order): all
 \* end-points are even grid points; any version strictly between two adjacent
 \* end-points is, for every range with end-points in EndPoints, a member exactly
